@@ -67,7 +67,7 @@ class C11(Check):
         self.stats = {}
 
     def budget(self, tier, escalated):
-        n = 260 if tier == 'quick' else 6000
+        n = 420 if tier == 'quick' else 6000
         return n * (3 if escalated and tier == 'quick' else 1)
 
     def nontrivial(self, sample):
